@@ -25,6 +25,7 @@ package producer
 
 // ---- kafka (sarama): exactly one hand-over to the producer's input per message ------------------------
 //@ func (*KafkaSarama).inputMsg
+//@   opt ownership what is handed to the asynchronous producer must not be memory this loop overwrites for the next message
 //@   opt replaytest step producer_sarama_once.go
 //@   requires k.logger != nil && ec != nil && k.producer != nil
 //@   opt nonterminating
